@@ -99,6 +99,8 @@ def run(ctx):
     r5_order(ctx, where, arms)
     r6_cache_invalidation(ctx)
     r7_per_keyword_state(ctx)
+    r8_groupby_level(ctx)
+    r9_missing_and_copy(ctx)
 
 
 def _arms(fn):
@@ -188,10 +190,14 @@ def r2_bisect_scan(ctx, cmpf, arms):
             e = rets[0]
             params = [a.arg for a in f.args.args]
             d = {"shortcut": unparse(e.body), "when": unparse(e.test), "fallback": unparse(e.orelse)}
-            ok = params == ["c", "a", "l", "h"] and unparse(e.body) == ret and unparse(e.test) == f"{probe} == a" and unparse(e.orelse) == f"{std}(c, a, l, h)"
+            conj = [unparse(v) for v in (e.test.values if isinstance(e.test, ast.BoolOp) and isinstance(e.test.op, ast.And) else [e.test])]
+            # the probe reads an element of the range, so it is sound only on a non-empty range: `l < h` must be tested first
+            d["non-empty range tested before the probe"] = conj[:1] in (["l < h"], ["h > l"])
+            ok = params == ["c", "a", "l", "h"] and unparse(e.body) == ret and conj[-1] == f"{probe} == a" and conj[:-1] in (["l < h"], ["h > l"]) \
+                and unparse(e.orelse) == f"{std}(c, a, l, h)"
         elif len(rets) == 1:
             ok = unparse(rets[0]) == f"{std}(c, a, l, h)"
-        ctx.ob("C17.R2", RES, name, f, f"{name}(c,a,l,h) is {std}(c,a,l,h) with an equivalent shortcut ({ret} when {probe} == a)", ok, detail=d, stmt=f"{name} definition")
+        ctx.ob("C17.R2", RES, name, f, f"{name}(c,a,l,h) is {std}(c,a,l,h) with an equivalent shortcut ({ret} when the range is non-empty and {probe} == a)", ok, detail=d, stmt=f"{name} definition")
     # the scan works on the [lo,hi) slice and numbers rows from lo
     sl = [x for x in walk_shallow(cmpf) if isinstance(x, ast.Assign) and unparse(x) == "col = col[lo:hi]"]
     ok = len(sl) == 1 and any(unparse(t) == "method != 'bisect' or callable(arg)" and p for t, p in guards_of(sl[0], cmpf))
@@ -301,6 +307,50 @@ def r7_per_keyword_state(ctx):
                detail={"conditionally re-bound and read": leaks}, stmt="kwargs loop carries no state")
 
 
+def r8_groupby_level(ctx):
+    ctx.rule("C17.R8", "groupby(level) partitions the rows by the index prefix of that level: the key columns are self._indexes[:level] and the row ranges walked "
+                       "are the cached ranges of the same `level` parameter in every branch (not of another index position)")
+    fn = ctx.fn(RES, "Table.groupby")
+    LV = fn.args.args[1].arg
+    subs = [x for x in ast.walk(fn) if isinstance(x, ast.Subscript) and unparse(x.value) == "self._lohis"]
+    ctx.floor("C17.R8", "range look-ups in Table.groupby", len(subs), 1)
+    for x in subs:
+        ctx.ob("C17.R8", RES, "Table.groupby", x, "the ranges are those cached for the index position given by the level parameter", unparse(x.slice) == f"self._indexes[{LV}]",
+               detail={"looked up": unparse(x.slice)})
+    loops = [l for l in ast.walk(fn) if isinstance(l, ast.For)]
+    via = {}
+    for l in loops:
+        it = l.iter
+        src = unparse(it)
+        if isinstance(it, ast.Name):
+            vs = assigned_value(fn, it.id)
+            src = unparse(vs[0]) if len(vs) == 1 else "?"
+        via[l.lineno] = src
+    ok = bool(loops) and all(v == f"self._lohis[self._indexes[{LV}]]" for v in via.values())
+    ctx.ob("C17.R8", RES, "Table.groupby", fn, "every branch of groupby walks the same ranges", ok, detail={"loop sources": sorted(set(via.values()))}, stmt="groupby loops")
+    cols = [x for x in walk_shallow(fn) if isinstance(x, ast.Assign) and isinstance(x.value, ast.ListComp) and "self._indexes" in unparse(x.value.generators[0].iter)]
+    ok = len(cols) == 1 and unparse(cols[0].value.generators[0].iter) == f"self._indexes[:{LV}]"
+    ctx.ob("C17.R8", RES, "Table.groupby", cols[0] if cols else fn, "the group key is made of the first `level` index columns", ok, stmt="groupby key columns")
+
+
+def r9_missing_and_copy(ctx):
+    ctx.rule("C17.R9", "scan and bisect agree on missing values: MissingType defines all four order comparisons, consistently with 'Missing sorts after everything' "
+                       "(<: False, <=: only when equal, >, >=: True); a copy() of a table does not share mutable column storage with the original")
+    c = ctx.model.cls(RES, "MissingType")
+    want = {"__lt__": "False", "__gt__": "True", "__ge__": "True", "__le__": None}
+    for m, val in want.items():
+        f = c.methods.get(m)
+        rets = [unparse(r.value) for r in walk_shallow(f) if isinstance(r, ast.Return)] if f is not None else []
+        ok = f is not None and len(rets) == 1 and (rets[0] == val if val is not None else rets[0] in ("self == other", "other is None or self is other", "self.__eq__(other)"))
+        ctx.ob("C17.R9", RES, f"MissingType.{m}", f if f is not None else c.node if hasattr(c, "node") else None, f"MissingType.{m} is defined and orders Missing after every value", ok,
+               detail={"returns": rets}, stmt=f"MissingType.{m}", line=getattr(f, "lineno", 1))
+    cp = ctx.fn(RES, "Table.copy")
+    made = [k for k in walk_shallow(cp) if isinstance(k, ast.Call) and call_name(k) == "Table" and k.args]
+    shares = [k for k in made if unparse(k.args[0]) == "self._data"]
+    ctx.ob("C17.R9", RES, "Table.copy", shares[0] if shares else cp, "the copy gets its own column storage (inserting into or re-indexing the copy must not change the original)",
+           bool(made) and not shares, detail={"data argument": [unparse(k.args[0]) for k in made]}, stmt="copy shares storage")
+
+
 def r6_cache_invalidation(ctx):
     """The (lo,hi) ranges of equal index values are cached in an attribute filled from _calc_lohis().  Any method that adds rows must
     drop that cache on every path before it returns, otherwise indexed queries keep answering from the old row ranges."""
@@ -352,7 +402,16 @@ def r6_cache_invalidation(ctx):
     ctx.floor("C17.R6", "row-adding statements in Table methods", n, 3)
 
 
+def _drop_le(tree):
+    from ..mutate import find_def
+    c = find_def(tree, "MissingType")
+    c.body = [st for st in c.body if not (isinstance(st, ast.FunctionDef) and st.name in ("__le__", "__ge__"))]
+
+
 CONTROLS = [
+    ("Missing without <= and >=", RES, _drop_le, "C17.R9"),
+    ("bisect shortcut probes an empty range", RES, M.replace_expr("my_bisect_left", "l < h and c[l] == a", "c[l] == a"), "C17.R2"),
+    ("groupby walks the finest ranges", RES, M.replace_expr("Table.groupby", "self._lohis[self._indexes[level]]", "self._lohis[self._indexes[-1]]", nth=0, count=4), "C17.R8"),
     ("operator of a dict argument leaks to later keywords", RES, M.chain(
         M.replace_stmt("Table.where", M.text_has("kw_comparison = next(iter(arg.keys())) if isinstance(arg, dict) else comparison"), "if isinstance(arg, dict): comparison = next(iter(arg.keys()))"),
         M.replace_expr("Table.where", "kw_comparison", "comparison", count=3)), "C17.R7"),
